@@ -31,9 +31,9 @@ ASSUMPTIONS = [
 ]
 FLOORS = {"quick": {"evaluations": 1500, "digests_compared": 500, "signatures_verified": 150,
                     "device_dialogues": 150, "refusals_checked": 400, "roundtrips": 150},
-          "thorough": {"evaluations": 60000, "digests_compared": 20000,
-                       "signatures_verified": 6000, "device_dialogues": 6000,
-                       "refusals_checked": 15000, "roundtrips": 6000}}
+          "thorough": {"evaluations": 400000, "digests_compared": 100000,
+                       "signatures_verified": 20000, "device_dialogues": 20000,
+                       "refusals_checked": 200000, "roundtrips": 8000}}
 
 GOOD_ITERS = [0, 1, 255, 256, 65535, "0", "1", "65535", "0x0", "0xffff", "0x10", "010"]
 BAD_ITERS = [-1, 65536, 2**32, "-1", "65536", "0x10000", "abc", "", "1.5", 1.5, True, None,
@@ -43,7 +43,7 @@ BAD_ITERS = [-1, 65536, 2**32, "-1", "65536", "0x10000", "abc", "", "1.5", 1.5, 
 def shards(tier, seed):
     if tier == "quick":
         return [{"seed": seed * 1000 + i, "n": 12} for i in range(16)]
-    return [{"seed": seed * 1000 + i, "n": 230} for i in range(32)]
+    return [{"seed": seed * 1000 + i, "n": 500} for i in range(32)]
 
 
 def expect_iter(it):
